@@ -133,6 +133,7 @@ func sharedSnapshot() string {
 		fmt.Sprintf("harness: read-only payloads shared by all sessions: %s %s %s", digest(sharedPayloads[0]), digest(sharedPayloads[1]), digest(sharedPayloads[2])),
 		"harness: offers of the Dialer shared by all shared-dialer sessions: "+renderSharedOffers(),
 		"harness: rejection errors shared by all sessions: "+renderSharedRejections(),
+		"harness: send extension list shared by all sessions: "+renderSharedExts(),
 		fmt.Sprintf("ws.StatusRanges=%v %v %v %v", ws.StatusRangeNotInUse, ws.StatusRangeProtocol, ws.StatusRangeApplication, ws.StatusRangePrivate),
 	)
 	return strings.Join(lines, "\n")
